@@ -141,6 +141,8 @@ class DynamicComponent(Component):
             outer_context=self._outer_context,
             registry=self.registry,
         )
+        # The `only` flag on the `{% component "dynamic" %}` tag applies to the component we render
+        comp._is_only = getattr(self, "_is_only", False)
         output = comp.render(
             context=self._input_context,
             args=args,
